@@ -638,8 +638,11 @@ namespace BitSerializer::Convert::Detail
 						if (isNegative)
 						{
 							constexpr uint64_t maxI64Negative = 9223372036854775808u;
-							if (value <= maxI64Negative) {
+							if (value < maxI64Negative) {
 								SafeAddDuration(duration, transformToDuration(-static_cast<int64_t>(value), sym, isDatePart));
+							}
+							else if (value == maxI64Negative) {
+								SafeAddDuration(duration, transformToDuration(std::numeric_limits<int64_t>::min(), sym, isDatePart));
 							}
 							else {
 								throw std::out_of_range("ISO duration contains too big number");
